@@ -60,5 +60,27 @@ Sound ==
   /\ Size(k, k) = 11 * PtLen + 5 * ScLen + 16 + 2 * k * PtLen    \* SizeLaw
   /\ D.res \in {"ok", "FormatError"}                             \* DecodeTotal
 
+(* Refinement of the unbounded abstraction CodecInd (inductive invariant discharged by Apalache): along the decoder's run on every stream
+   enumerated here, each DStep is a CodecInd!Step for the token the stream presents at the current position ("eof" beyond its end). *)
+AbsStep(d, e, st, val) ==      \* CodecInd!Step as a relation between decoder states
+  /\ d.res = ""
+  /\ IF d.need = 0
+     THEN /\ e.pos = d.pos /\ e.held = d.held
+          /\ \/ d.phase = "head" /\ e.phase = "lenL" /\ e.need = 1 /\ e.res = ""
+             \/ d.phase = "L" /\ e.phase = "lenR" /\ e.need = 1 /\ e.res = ""
+             \/ d.phase = "R" /\ e.phase = "tail" /\ e.need = 2 /\ e.res = ""
+             \/ d.phase = "tail" /\ e.phase = d.phase /\ e.need = d.need /\ e.res = "ok"
+     ELSE IF st # "ok" THEN e = [d EXCEPT !.res = "FormatError"]
+     ELSE IF d.phase = "lenL" THEN e = [d EXCEPT !.phase = "L", !.need = val, !.pos = @ + 1]
+     ELSE IF d.phase = "lenR" THEN e = [d EXCEPT !.phase = "R", !.need = val, !.pos = @ + 1]
+     ELSE e = [d EXCEPT !.need = @ - 1, !.pos = @ + 1, !.held = @ + 1]
+TokSt(input, i) == IF i > Len(input) THEN "eof" ELSE input[i].st
+TokVal(input, i) == IF i <= Len(input) /\ "val" \in DOMAIN input[i] THEN input[i].val ELSE 0
+RECURSIVE RunRefines(_, _)
+RunRefines(d, input) ==
+  IF d.res # "" THEN TRUE
+  ELSE LET e == DStep(d, input) IN AbsStep(d, e, TokSt(input, d.pos), TokVal(input, d.pos)) /\ RunRefines(e, input)
+RefinesInd == RunRefines(DInit, Stream)
+
 Emit == done => PrintT(<< "BEHAVIOUR", ToJson([k |-> k, test |-> test]) >>)
 =============================================================================
